@@ -19,8 +19,10 @@ RULE = ("cases = generator configuration (data length in {1,2,3,4,5,8,17,64}(+mo
         "little/big endian, max_length port (the class does not elaborate without one), 1-bit or per-byte valid; USB descriptor flavour) or serializer "
         "configuration (data_length 1..8, with/without max_length) x request script: every start position, max_length "
         "in 0..len+5, ready patterns always/random/stall-on-last-word/alternate, start held or pulsed, starts while busy; "
-        "'in-domain' scripts (start position within the data, inputs stable during an emission) are judged by the monitor, "
-        "'wild' scripts (any signal value each cycle, truncating/clamped start positions) only tie the model to the code; "
+        "'in-domain' scripts (inputs stable during an emission; start positions within the data AND every kind of value beyond it: "
+        "clamped at the byte length, unclamped between word count and byte length, truncated to the position register - "
+        "coverage tags start-*) are judged by the monitor against the slice resp. the documented clamp / as-coded emission "
+        "of emits_all_starts, 'wild' scripts (any signal value each cycle) only tie the model to the code; "
         "'sweep' generator configurations: max_length_width 3..8 x word width 1/2/4 bytes (1-bit and per-byte valid) x constant "
         "of 2**mlw + 2*wb + 3 bytes (longer than the port can count), start positions 0, 1, random, max_length swept over the "
         "top 2*wb+1 values of its range (2**mlw-1 downwards, where bytes_sent + bytes_per_word reaches 2**mlw) and the rest of "
@@ -124,6 +126,50 @@ def expected_words(desc, data, s, ml):
     return out
 
 
+def expected_emission(desc, data, sp, ml):
+    """(words, first_flagged) for ANY value sp of the start_position port, as the code documents it ("If our starting
+    position is greater than our data length, use our data length") and as emits_all_starts / serializer_emits_all_starts
+    state it: within the data the slice; at or beyond the length (generator: the BYTE length) the clamp - the last word
+    only, `first` not flagged; generator with multi-byte words and words <= sp < len(data): no clamp, truncation to the
+    position register, then (if still beyond the last word) the out-of-range positions up to the wrap (payload None =
+    not judged: an out-of-range ROM read) followed by the constant from its beginning, max_length counting all of it."""
+    kind, wb, vw = desc["kind"], desc["wb"], desc["vw"]
+    if kind == 1:
+        n = len(data)
+        if sp < n:
+            return expected_words(desc, data, sp, ml), True
+        return expected_words(desc, data, n - 1, ml), False
+    L = len(data)
+    W = (L + wb - 1) // wb
+    if sp < W:
+        return expected_words(desc, data, sp, ml), True
+    if sp >= L:
+        return expected_words(desc, data, W - 1, ml), False
+    PW = 1 << max(W - 1, 0).bit_length()
+    e = sp % PW
+    if e < W:
+        return expected_words(desc, data, e, ml), False      # e != sp: truncated
+    lead = PW - e
+    full = (1 << wb) - 1 if vw > 1 else 1
+    if ml is not None and ml <= lead * wb:
+        N = (ml + wb - 1) // wb
+        return [(None, (1 << min(wb, ml - k * wb)) - 1 if vw > 1 else 1) for k in range(N)], e == sp
+    return [(None, full)] * lead + expected_words(desc, data, 0, None if ml is None else ml - lead * wb), e == sp
+
+
+def sp_region(desc, sp):
+    wb, L = desc["wb"], desc["len"]
+    W = n_words(desc)
+    if sp < W:
+        return "within"
+    if sp >= L:
+        return "clamped"
+    PW = 1 << max(W - 1, 0).bit_length()
+    if sp >= PW:
+        return "truncated-into-data" if sp % PW < W else "truncated-beyond-words"
+    return "unclamped-beyond-words"
+
+
 def n_words(desc):
     return (desc["len"] + desc["wb"] - 1) // desc["wb"] if desc["kind"] == 0 else desc["len"]
 
@@ -159,6 +205,16 @@ def make_stimulus(desc, data, rng):
     sps = rng.shuffle(list(range(W)))
     if len(sps) > 12:
         sps = sps[:8] + [0, W - 1, W - 2, 1]
+    # every kind of value the port can carry beyond the data: words <= sp < 2**width (clamped at the byte length,
+    # unclamped between the word count and the byte length, truncated when wider than the position register)
+    beyond = list(range(W, 1 << spw))
+    if len(beyond) > 7:
+        PWv = 1 << max(W - 1, 0).bit_length()
+        pick = [v for v in (W, W + 1, PWv - 1, PWv, PWv + 1, PWv + W, 2 * PWv - 1, L - 1, L, L + 1, (1 << spw) - 1)
+                if W <= v < (1 << spw)]
+        beyond = sorted(set(pick + [rng.choice(beyond) for _ in range(2)]))
+    if beyond and not desc.get("sweep"):
+        sps = rng.shuffle(sps + beyond)
     ready_modes = ["always", "random", "stall-last", "alternate", "sparse"]
     t_budget = 2600
     sweep = bool(desc.get("sweep"))
@@ -171,7 +227,12 @@ def make_stimulus(desc, data, rng):
         if mlw >= 6:
             ready_modes = ["always", "random", "stall-last"]
     for s in sps:
-        remaining = L - s * desc["wb"] if kind == 0 else L - s
+        if s < W:
+            remaining = L - s * desc["wb"] if kind == 0 else L - s
+        else:
+            # bytes the as-coded emission plays without a limit
+            full_exp = expected_emission(desc, cur if ser else data, s, None if not mlw else (1 << 30))[0]
+            remaining = sum(bin(v).count("1") for _, v in full_exp) if desc["vw"] > 1 else len(full_exp) * desc["wb"]
         if sweep:
             top = list(range((1 << mlw) - 1, max((1 << mlw) - 2 * desc["wb"] - 2, 0), -1))
             rest = rng.shuffle([v for v in range(1, 1 << mlw) if v not in top])
@@ -188,7 +249,7 @@ def make_stimulus(desc, data, rng):
                 break
             if ser and rng.chance(50):
                 cur = [rng.below(256) for _ in cur]
-            exp = expected_words(desc, cur if ser else data, s, ml if mlw else None)
+            exp = expected_emission(desc, cur if ser else data, s, ml if mlw else None)[0]
             for _ in range(rng.range(1, 3)):
                 rows.append(row(0, s if rng.chance(70) else rng.below(W), ml if rng.chance(70) else rng.below(4), int(rng.chance(50))))
             hold = rng.chance(30)
@@ -236,6 +297,8 @@ def monitor(desc, data, stim, rows):
             "serializer" if ser else "generator", desc["len"], desc["wb"], vw, mlw, t, what)})
 
     state, queue, idx, olen = "idle", [], 0, None
+    flag_first = True
+    regions = set()
     emissions = 0
     stalled_last = False
     for t, (i, o) in enumerate(zip(stim, rows)):
@@ -248,7 +311,8 @@ def monitor(desc, data, stim, rows):
             go = start and (ml > 0 if mlw else True)
             if go:
                 cur = i[4:] if ser else data
-                queue = expected_words(desc, cur, sp, ml if mlw else None)
+                queue, flag_first = expected_emission(desc, cur, sp, ml if mlw else None)
+                regions.add(sp_region(desc, sp) if not ser else ("within" if sp < desc["len"] else "clamped"))
                 idx = 0
                 olen = min(ml, desc["len"]) if mlw else None
                 state = "play"
@@ -261,11 +325,12 @@ def monitor(desc, data, stim, rows):
             if valid != want_valid:
                 fail(t, "valid-mask" if valid else "slice-gap", "valid=%#x, word %d of %d requires %#x" % (valid, idx, len(queue), want_valid))
                 break
-            if payload != want_payload:
+            if want_payload is not None and payload != want_payload:
                 fail(t, "slice-payload", "payload=%#x, word %d of the slice is %#x" % (payload, idx, want_payload))
                 break
-            if first != int(idx == 0):
-                fail(t, "first-flag", "first=%d on word %d" % (first, idx))
+            if first != int(idx == 0 and flag_first):
+                fail(t, "first-flag", "first=%d on word %d (start_position %d %s)" % (
+                    first, idx, sp, "as requested" if flag_first else "clamped/truncated: never equals the position"))
                 break
             if last != int(idx == len(queue) - 1):
                 fail(t, "last-flag", "last=%d on word %d of %d" % (last, idx, len(queue)))
@@ -287,7 +352,7 @@ def monitor(desc, data, stim, rows):
                 fail(t, "done-pulse", "done=%d valid=%d in the cycle after the last word was taken" % (done, valid))
                 break
             state = "idle"
-    return fails, emissions, stalled_last
+    return fails, emissions, stalled_last, regions
 
 
 def run_case(desc):
@@ -322,9 +387,9 @@ def run_case(desc):
     stim = [[r[0] & 1, r[1] & spmask, r[2] & mlmask, r[3] & 1] + [x & 0xFF for x in r[4:]] for r in stim]
     rows = sim.run_cycles(dut, ins, outs, [[r[j] for j in use] for r in stim], domain=dom)
     rows = [list(r) + ([0] if (not ser and not mlw) else []) for r in rows]
-    fails, emissions, stalled_last = ([], 0, False)
+    fails, emissions, stalled_last, regions = ([], 0, False, set())
     if desc["mode"] == "domain":
-        fails, emissions, stalled_last = monitor(desc, data, stim, rows)
+        fails, emissions, stalled_last, regions = monitor(desc, data, stim, rows)
     if ser:
         cfg = [1, L, mlw]
         names_out = ["valid", "payload", "first", "last", "done"]
@@ -337,6 +402,7 @@ def run_case(desc):
             "partial-valid" if any(r[0] not in (0, 1, (1 << desc["vw"]) - 1) for r in rows) else "no-partial-valid",
             "stalled-last" if stalled_last else "no-stalled-last",
             "emissions>=3" if emissions >= 3 else "emissions<3"]
+    tags += ["start-" + r for r in sorted(regions)]
     if desc.get("sweep") and mlw:
         # a request at the top of the max_length range against a constant that is longer than 2**mlw from the start position
         tags.append("sweep")
